@@ -2,8 +2,19 @@
 
 _FAM = ['plu', 'ldl', 'llt']
 
+# counters of the type-generic companion (harness/h_linalg_fact_w.c), summed over the f32 and f80 configurations
+_W = (['w-cases-f32', 'w-cases-f80'] +
+      ['w-' + f + s for f in _FAM for s in ('-exactly-singular-reports-failure', '-exactly-factorable-reports-success', '-exact-factors',
+                                            '-reconstruction-bound', '-extraction-equals-stored', '_solve-exact', '_solve-residual-bound',
+                                            '_inv-exact', '_inv_-exact', '_inv-column-bound', '_inv_-column-bound', '_det-exact',
+                                            '_det-vs-pivot-product', '_lndet-vs-log-pivots')] +
+      ['w-plu-shape', 'w-plu_sgndet-vs-pivot-signs', 'w-ldl_sgndet-vs-pivot-signs'])
+
 SPEC = dict(
     harness=['h_linalg_fact.c'],
+    # the default (double) build runs the full harness; the other two real widths run a compact type-generic companion
+    configs=lambda tier: [dict(name='f64'), dict(name='f32', real=4, harness=['h_linalg_fact_w.c']), dict(name='f80', real=16, harness=['h_linalg_fact_w.c'])],
+    parallel_configs=3,
     level='exploration',
     rule='one case = one matrix of one structure class run through one family (a_real_plu / a_real_ldl / a_real_llt); every library call '
          'in it is one evaluation. On reported success: p is a permutation with parity == sign, every stored multiplier |l| <= 1, the '
@@ -30,9 +41,16 @@ SPEC = dict(
          '+ sum_c E(r,c)|x_c| + sum_{k<=r}|L_rk| e2_k + e1_r; all times c = 4. '
          'distinct_nontrivial counts distinct (family, n, structure class, success|failure, pivoting-pattern signature) cells in which a '
          'factorization was judged; signature = bit mask of the elimination steps that exchanged rows (PLU, n<=12; number of exchanges '
-         'for n>12), bit mask of the negative pivots (LDL, n<=12; their number for n>12), none for LLT - NOT the number of matrices.',
+         'for n>12), bit mask of the negative pivots (LDL, n<=12; their number for n>12), none for LLT - NOT the number of matrices. '
+         'Configurations f32 / f80 (a_real = float / long double, counters w-*, keys ending /f32 or /f80): the companion harness judges, with '
+         'every array an exact-size 0xA5-filled malloc block, (exact) A = Q*L0*U0 with multipliers k/4 and integer U0, integer L0*D0*L0^T and '
+         'L0*L0^T: stored factors, p, sign, solve of b = A*x0, integer determinant compared with ==, and A*X == I exactly for inv and inv_ '
+         'when n <= 4; (rounded) random full-mantissa matrices against the same componentwise bounds with u = A_REAL_EPSILON/2, c = 4, '
+         'lndet within c*(n+2)*eps*sum|log|pivot||; (exactly singular) zeroed u_kk / d_k, lowered Cholesky pivot, zero column, 2^k-multiple '
+         'rows, zero matrix must fail; (full range) permutation / diagonal / row-scaled triangular matrices with pivots 2^k, '
+         'A_REAL_MIN_EXP-1 <= k <= A_REAL_MAX_EXP-3, must succeed with factors == input, solve == x0, exact inverse; P, P_, L, U, D == stored.',
     exhaustive={'quick': None, 'thorough': None},
-    require=['guard-cells-intact', 'const-input-intact',
+    require=_W + ['guard-cells-intact', 'const-input-intact',
              'exact-zero-pivot-reports-failure', 'exactly-factorable-reports-success',
              'plu-failure-reported', 'ldl-failure-reported', 'llt-failure-reported',
              'plu-p-is-permutation', 'plu-sign-equals-parity', 'plu-multipliers-le-1', 'plu-pivots-nonzero',
@@ -58,11 +76,16 @@ SPEC = dict(
     cov_files=['linalg_plu.c', 'linalg_ldl.c', 'linalg_llt.c'],
     cov_cases=600,
     cov_funcs=r'^a_real_(plu|ldl|llt)',
-    workers={'quick': 8, 'thorough': 16},
+    workers={'quick': 18, 'thorough': 36},  # three configurations run side by side: 6 / 12 workers each (the companions finish within a second)
     assumptions=[
         'only executions produced by this run are judged (runtime monitoring, not proof)',
         'gcc 12 / x86-64 LP64 little-endian, A_SIZE_POINTER=8; library rebuilt from /repo working tree with -fsanitize=address,undefined',
-        'a_real = double (A_SIZE_REAL=8), round-to-nearest, no FMA contraction; the float and long double builds are not executed',
+        'full harness (configuration f64): a_real = double (A_SIZE_REAL=8), round-to-nearest, no FMA contraction. The float (A_SIZE_REAL=4, f32) and '
+        'x87 long double (A_SIZE_REAL=16, f80) builds are executed by the compact type-generic companion harness/h_linalg_fact_w.c only: '
+        'n <= 12, four kinds of input per family (exactly factorable dyadic / integer, full-mantissa random with scaling <= 2^+-12, exactly '
+        'singular, no-arithmetic matrices whose pivots are 2^k anywhere in the normal range of the working type); the extreme-scaling classes '
+        'with underflowing products, the plain / strided triangular sweeps on their own, guard cells inside the allocations and input '
+        'snapshots of the full harness are not repeated there (exact-size 0xA5-filled blocks under ASan are)',
         'underflow is modelled by the standard gradual-underflow term (absolute error <= 2^-1074 per product / quotient, sums exact), which '
         'is part of every bound; an overflow (non-finite factor or solution) is accepted only on the xscale classes and on plain LDL^T of '
         'indefinite matrices, where it is counted and skipped; n <= 48; the determinant product is judged only while every partial '
@@ -83,7 +106,9 @@ SPEC = dict(
                'the worst ratio observed on the real code while an indexing or sign error produces O(1) relative residuals.',
     level_note='trusted: libquadmath arithmetic/logq and the harness residual loops; a wrong result that still satisfies the componentwise '
                'bound with c = 4 (a relative perturbation of a few n*u of the factors) is not observed; plain LDL^T results on indefinite matrices are '
-               'judged only by the bound in terms of the computed factors (no stability demanded); n > 48 not executed',
+               'judged only by the bound in terms of the computed factors (no stability demanded); n > 48 not executed '
+               '(float / long double builds: n > 12 and badly scaled non-trivial matrices not executed; a width-specific defect that only shows '
+               'with underflowing multipliers or for n > 12 is not observed)',
     technique='structured/random matrix workload, quad-precision componentwise backward-error oracle, exact-by-construction failure classes, '
               'guard cells + exact-size blocks under ASan+UBSan',
 )
